@@ -16,3 +16,62 @@ package lineintersector
 //@   requires len(point) >= 2 && len(lineStart) >= 2 && len(lineEnd) >= 2 && istype(strategy, RobustLineIntersector)
 //@   ensures res <==> onSeg(point[0], point[1], lineStart[0], lineStart[1], lineEnd[0], lineEnd[1])
 //@   modifies nothing
+
+// C12 ------------------------------------------------------------------------------------------------------
+
+//@ func isPointOrCollinearIntersection
+//@   floats real
+//@   requires len(lineStart) >= 2 && len(lineEnd) >= 2
+//@   ensures res == pOrC(lineStart[0], lineStart[1], lineEnd[0], lineEnd[1], intersection1, intersection2)
+//@   modifies nothing
+
+//@ func computeCollinearIntersection
+//@   floats real
+//@   requires data != nil && len(line1Start) >= 2 && len(line1End) >= 2 && len(line2Start) >= 2 && len(line2End) >= 2
+//@   ensures res == colClass(line1Start[0], line1Start[1], line1End[0], line1End[1], line2Start[0], line2Start[1], line2End[0], line2End[1])
+//@   ensures data.isProper == old(data.isProper) && data.intersectionType == old(data.intersectionType)
+//@   ensures [reported] res != 0 ==> ((data.intersectionPoints[0] == line1Start || data.intersectionPoints[0] == line2Start || data.intersectionPoints[0] == line2End) && (data.intersectionPoints[1] == line1End || data.intersectionPoints[1] == line1Start || data.intersectionPoints[1] == line2End))
+//@   ensures [point] res == 1 ==> data.intersectionPoints[0][0] == data.intersectionPoints[1][0] && data.intersectionPoints[0][1] == data.intersectionPoints[1][1] && (data.intersectionPoints[0] == line2Start || data.intersectionPoints[0] == line2End) && (data.intersectionPoints[1] == line1Start || data.intersectionPoints[1] == line1End)
+//@   ensures [within] res != 0 ==> inBox(data.intersectionPoints[0][0], data.intersectionPoints[0][1], line1Start[0], line1Start[1], line1End[0], line1End[1]) && inBox(data.intersectionPoints[0][0], data.intersectionPoints[0][1], line2Start[0], line2Start[1], line2End[0], line2End[1]) && inBox(data.intersectionPoints[1][0], data.intersectionPoints[1][1], line1Start[0], line1Start[1], line1End[0], line1End[1]) && inBox(data.intersectionPoints[1][0], data.intersectionPoints[1][1], line2Start[0], line2Start[1], line2End[0], line2End[1])
+//@   modifies *data
+
+// the proper-crossing point is computed in floating point (normalised homogeneous coordinates with a
+// central-endpoint fallback): not under contract here, only its shape
+//@ func intersection
+//@   floats real
+//@   trusted
+//@   requires data != nil && len(line1Start) >= 2 && len(line1End) >= 2 && len(line2Start) >= 2 && len(line2End) >= 2
+//@   ensures len(res) >= 2 && fresh(res)
+//@   modifies nothing
+
+//@ func RobustLineIntersector.computeLineOnLineIntersection
+//@   floats real
+//@   nomerge
+//@   requires data != nil && len(line1Start) >= 2 && len(line1End) >= 2 && len(line2Start) >= 2 && len(line2End) >= 2
+//@   requires [non-degenerate] !(line1Start[0] == line1End[0] && line1Start[1] == line1End[1]) && !(line2Start[0] == line2End[0] && line2Start[1] == line2End[1])
+//@   requires len(data.intersectionPoints[0]) >= 2 && len(data.intersectionPoints[1]) >= 2
+//@   requires base(data.intersectionPoints[0]) != base(line1Start) && base(data.intersectionPoints[0]) != base(line1End) && base(data.intersectionPoints[0]) != base(line2Start) && base(data.intersectionPoints[0]) != base(line2End)
+//@   ensures [class] data.intersectionType == segClass(line1Start[0], line1Start[1], line1End[0], line1End[1], line2Start[0], line2Start[1], line2End[0], line2End[1])
+//@   ensures [endpoint] data.intersectionType == 1 && touches(line1Start[0], line1Start[1], line1End[0], line1End[1], line2Start[0], line2Start[1], line2End[0], line2End[1]) ==> onSeg(data.intersectionPoints[0][0], data.intersectionPoints[0][1], line1Start[0], line1Start[1], line1End[0], line1End[1]) && onSeg(data.intersectionPoints[0][0], data.intersectionPoints[0][1], line2Start[0], line2Start[1], line2End[0], line2End[1])
+//@   ensures [proper] data.isProper <==> data.intersectionType == 1 && !touches(line1Start[0], line1Start[1], line1End[0], line1End[1], line2Start[0], line2Start[1], line2End[0], line2End[1])
+//@   modifies *data, data.intersectionPoints[0]
+//@   at stmt23: assert data.intersectionPoints[0][0] == line1Start[0] && data.intersectionPoints[0][1] == line1Start[1]
+//@   at stmt23: assert onSeg(data.intersectionPoints[0][0], data.intersectionPoints[0][1], line1Start[0], line1Start[1], line1End[0], line1End[1]) && onSeg(data.intersectionPoints[0][0], data.intersectionPoints[0][1], line2Start[0], line2Start[1], line2End[0], line2End[1])
+//@   at stmt25: assert data.intersectionPoints[0][0] == line1End[0] && data.intersectionPoints[0][1] == line1End[1]
+//@   at stmt25: assert onSeg(data.intersectionPoints[0][0], data.intersectionPoints[0][1], line1Start[0], line1Start[1], line1End[0], line1End[1]) && onSeg(data.intersectionPoints[0][0], data.intersectionPoints[0][1], line2Start[0], line2Start[1], line2End[0], line2End[1])
+//@   at stmt27: assert data.intersectionPoints[0][0] == line2Start[0] && data.intersectionPoints[0][1] == line2Start[1]
+//@   at stmt27: use touchOnSeg(line1Start[0], line1Start[1], line1End[0], line1End[1], line2Start[0], line2Start[1], line2End[0], line2End[1])
+//@   at stmt27: assert onSeg(data.intersectionPoints[0][0], data.intersectionPoints[0][1], line1Start[0], line1Start[1], line1End[0], line1End[1]) && onSeg(data.intersectionPoints[0][0], data.intersectionPoints[0][1], line2Start[0], line2Start[1], line2End[0], line2End[1])
+//@   at stmt29: assert data.intersectionPoints[0][0] == line2End[0] && data.intersectionPoints[0][1] == line2End[1]
+//@   at stmt29: use crossSwap(line2Start[0], line2Start[1], line2End[0], line2End[1], line1Start[0], line1Start[1])
+//@   at stmt29: use crossSwap(line2Start[0], line2Start[1], line2End[0], line2End[1], line1End[0], line1End[1])
+//@   at stmt29: use touchOnSeg(line1Start[0], line1Start[1], line1End[0], line1End[1], line2End[0], line2End[1], line2Start[0], line2Start[1])
+//@   at stmt29: assert onSeg(data.intersectionPoints[0][0], data.intersectionPoints[0][1], line1Start[0], line1Start[1], line1End[0], line1End[1]) && onSeg(data.intersectionPoints[0][0], data.intersectionPoints[0][1], line2Start[0], line2Start[1], line2End[0], line2End[1])
+//@   at stmt31: assert data.intersectionPoints[0][0] == line1Start[0] && data.intersectionPoints[0][1] == line1Start[1]
+//@   at stmt31: use touchOnSeg(line2Start[0], line2Start[1], line2End[0], line2End[1], line1Start[0], line1Start[1], line1End[0], line1End[1])
+//@   at stmt31: assert onSeg(data.intersectionPoints[0][0], data.intersectionPoints[0][1], line1Start[0], line1Start[1], line1End[0], line1End[1]) && onSeg(data.intersectionPoints[0][0], data.intersectionPoints[0][1], line2Start[0], line2Start[1], line2End[0], line2End[1])
+//@   at stmt33: assert data.intersectionPoints[0][0] == line1End[0] && data.intersectionPoints[0][1] == line1End[1]
+//@   at stmt33: use crossSwap(line1Start[0], line1Start[1], line1End[0], line1End[1], line2Start[0], line2Start[1])
+//@   at stmt33: use crossSwap(line1Start[0], line1Start[1], line1End[0], line1End[1], line2End[0], line2End[1])
+//@   at stmt33: use touchOnSeg(line2Start[0], line2Start[1], line2End[0], line2End[1], line1End[0], line1End[1], line1Start[0], line1Start[1])
+//@   at stmt33: assert onSeg(data.intersectionPoints[0][0], data.intersectionPoints[0][1], line1Start[0], line1Start[1], line1End[0], line1End[1]) && onSeg(data.intersectionPoints[0][0], data.intersectionPoints[0][1], line2Start[0], line2Start[1], line2End[0], line2End[1])
